@@ -1197,15 +1197,7 @@ func (s *Entry) printTimestamp(pc *PrintCtx) {
 func (s *Entry) printLoggerName(pc *PrintCtx) {
 	if s.name != "" {
 		if pc.noColor { // json or logfmt
-			if pc.jsonMode {
-				pc.pcAppendStringKey("logger")
-				pc.pcAppendColon()
-				pc.pcAppendByte('"')
-				pc.pcAppendStringValue(s.name)
-				pc.pcAppendByte('"')
-			} else {
-				pc.AddString("logger", s.name)
-			}
+			pc.AddString("logger", s.name)
 			pc.pcAppendComma()
 		} else {
 			ct.wrapColorAndBgTo(pc, clrLoggerName, clrLoggerNameBg, s.name)
